@@ -1,4 +1,5 @@
 import QipVerif.Lemmas.GridMerge
+import QipVerif.Gen.FillCubic
 /-!
 # C14 — pulse evolution is the time-ordered propagator of the stated Hamiltonian
 
@@ -332,6 +333,23 @@ theorem save_read_shape_repaired (inctime : Bool) (rows n i : Nat) (hi : i < n) 
     readCoeffLenV true inctime rows n i = some rows := by
   unfold readCoeffLenV loadShapeV
   cases inctime <;> simp [hi]
+
+/-- **Which interpolant the cubic branch uses, per sample count.**  `Gen.cubicInterp` is regenerated from the source of
+`_fill_coeff` on every run (the routine called for a channel with `n` samples).  For every `n` its interpolant has the
+degree `splineDegree n` of the not-a-knot spline through `n` samples — the degree QuTiP's order-3 coefficient (the function
+the solver integrates) has: a line for 2, the parabola for 3, cubic pieces from 4 samples on; fewer than 2 samples raise.
+(A branch such as `if len(old_tlist) < 4: np.interp(...)` regenerates a different `cubicInterp` and this proof breaks.) -/
+theorem cubic_interpolant (n : Nat) : (Gen.cubicInterp n).degree n = splineDegree n := by
+  simp [Gen.cubicInterp, Interp.degree]
+
+theorem splineDegree_spec (n d : Nat) : splineDegree n = some d ↔ 2 ≤ n ∧ d = min 3 (n - 1) := by
+  unfold splineDegree
+  by_cases h : n < 2
+  · simp [h]; omega
+  · simp [h]; omega
+
+example : splineDegree 2 = some 1 ∧ splineDegree 3 = some 2 ∧ splineDegree 4 = some 3 ∧ splineDegree 9 = some 3 ∧
+    splineDegree 1 = none ∧ Interp.linear.degree 3 = some 1 := by decide
 
 /-- the unrepaired variants are the original functions -/
 theorem variants_false : (∀ tol tl cs T, fillV false tol tl cs T = fill tol tl cs T) ∧
